@@ -140,7 +140,8 @@ from twins_extra import EXTRA  # noqa: E402
 from twins_round3 import ROUND3  # noqa: E402
 from twins_round4 import ROUND4  # noqa: E402
 from twins_round5 import ROUND5  # noqa: E402
-for _n, _w, _e in EXTRA + ROUND3 + ROUND4 + ROUND5:
+from twins_round6 import ROUND6  # noqa: E402
+for _n, _w, _e in EXTRA + ROUND3 + ROUND4 + ROUND5 + ROUND6:
     twin(_n, _w, _e)
 
 
